@@ -2558,6 +2558,50 @@ impl C09 {
                 Err(site) => out.oracle_fail(&site, "decode(Schedule) panicked", input.clone()),
             }
         }
+        // a genesis carrying this schedule: its hash is a function of the VALUE, so every serialisation of the same
+        // genesis — the validators listed in any order (a hand-written config, another implementation's encoder) —
+        // decodes to an equal genesis with the same hash, and the hash is keccak(canonical encoding of the value)
+        if r.is_some() {
+            if let Ok(s) = validator::Schedule::new(vs.clone(), sel.clone()) {
+                let raw = validator::GenesisRaw {
+                    chain_id: validator::ChainId(1337),
+                    fork_number: validator::ForkNumber(op["freq"].as_u64().unwrap_or(0) % 5),
+                    protocol_version: validator::ProtocolVersion::CURRENT,
+                    first_block: validator::BlockNumber(vs.len() as u64),
+                    validators_schedule: Some(s),
+                };
+                let g = raw.clone().with_hash();
+                let built = ProtoFmt::build(&g);
+                let n = vs.len();
+                let mut perms: Vec<(&str, Vec<usize>)> = vec![("as built", (0..n).collect()), ("reversed", (0..n).rev().collect())];
+                let mut sh: Vec<usize> = (0..n).collect();
+                sh.shuffle(&mut StdRng::seed_from_u64(n as u64 ^ 0x6E5));
+                perms.push(("shuffled", sh));
+                for (what, perm) in perms {
+                    let mut q = built.clone();
+                    if let Some(sched) = q.validators_schedule.as_mut() {
+                        let orig = sched.validators.clone();
+                        sched.validators = perm.iter().map(|i| orig[*i].clone()).collect();
+                    }
+                    let bytes = q.encode_to_vec();
+                    out.count("genesis_wire_order");
+                    match catch(|| zksync_protobuf::decode::<validator::Genesis>(&bytes)) {
+                        Ok(Ok(d)) => {
+                            let recomputed = (*d).clone().with_hash().hash();
+                            if d.hash() != g.hash() || d != g {
+                                out.oracle_fail("Genesis/wire-order", &format!("the same genesis serialised with its validators {what} decodes to a genesis with a different hash"), input.clone());
+                            } else if d.hash() != recomputed {
+                                out.oracle_fail("Genesis/hash", "hash of a decoded genesis is not keccak(canonical encoding of its value)", input.clone());
+                            } else if zksync_protobuf::encode(&d) != zksync_protobuf::encode(&g) || zksync_protobuf::canonical(&d) != zksync_protobuf::canonical(&g) {
+                                out.oracle_fail("Genesis/wire-order", &format!("the same genesis serialised with its validators {what} re-encodes differently"), input.clone());
+                            }
+                        }
+                        Ok(Err(e)) => out.oracle_fail("Genesis/wire-order", &format!("a serialisation of a valid genesis (validators {what}) is refused: {e:#}"), input.clone()),
+                        Err(site) => out.oracle_fail(&site, "decode(Genesis) panicked", input.clone()),
+                    }
+                }
+            }
+        }
         match r {
             Some(enc) => json!({"ok": true, "enc": hx(&enc)}),
             None => json!({"ok": false}),
